@@ -22,7 +22,7 @@ if os.path.exists(rp):
         mp = os.path.join(HERE, "seeded", sid, "meta.json")
         meta = json.load(open(mp)) if os.path.exists(mp) else {}
         e = res[sid]
-        out.append("| %s | %s | %s | %s | %s |" % (sid, e["property"], ", ".join(e.get("detected_by", [])) or "**missed**",
+        out.append("| %s | %s | %s | %s | %s |" % (sid, e["property"], ", ".join(e.get("detected_by", [])) or ("not claimed (judged outside the statement)" if meta.get("judged") else ("neutralised by a later fix" if meta.get("neutralised") else "**missed**")),
                    str(meta.get("summary", ""))[:260].replace("|", "\\|").replace("\n", " "), str(meta.get("needs", ""))[:220].replace("|", "\\|").replace("\n", " ")))
 # sub-spaces per check, from the evidence of the last run of each check
 import glob
